@@ -221,6 +221,29 @@ type CrashCase struct {
 	Only     int64 `json:"only,omitempty"`      // replay: crash only at this mutation index
 	OnlyRec  int64 `json:"only_rec,omitempty"`  // replay: additionally crash recovery at this index
 	RecEvery int   `json:"rec_every,omitempty"` // explore crashes inside recovery for every k-th crash point (0 = never)
+	Debris   bool  `json:"debris,omitempty"`    // replay: only the "next process died while Badger created its memtable file" state of crash point Only
+}
+
+// addEmptyMemTable puts the crashed directory into the state a process leaves when it is killed inside
+// Badger's memtable-file creation (between open(O_CREATE) and the truncate to its size; Badger's
+// deletion of a flushed memtable file has the same window between truncate(0) and unlink): a
+// zero-length <fid>.mem. Real kills reach it through Badger's background goroutines (the thorough
+// tier met it inside recovery); this makes the state a deterministic part of every explored crash point.
+func addEmptyMemTable(dbDir string) (string, error) {
+	ents, err := os.ReadDir(dbDir)
+	if err != nil {
+		return "", err
+	}
+	next := 1
+	for _, e := range ents {
+		if strings.HasSuffix(e.Name(), ".mem") {
+			if n, err := strconv.Atoi(strings.TrimSuffix(e.Name(), ".mem")); err == nil && n >= next {
+				next = n + 1
+			}
+		}
+	}
+	name := fmt.Sprintf("%05d.mem", next)
+	return name, os.WriteFile(filepath.Join(dbDir, name), nil, 0o644)
 }
 
 type dbState map[string]string // key -> sha256 of the content (hex); equal bytes compare equal whoever wrote them
@@ -307,7 +330,7 @@ func copyDir(src, dst string) error {
 }
 
 // judgeCrash opens the crashed directory and compares with the allowed states.
-func judgeCrash(c Case, r *ev.Result, dir string, run childRun, n int64, recAt int64) (ok bool) {
+func judgeCrash(c Case, r *ev.Result, dir string, run childRun, n int64, recAt int64, note ...string) (ok bool) {
 	// rebuild the model: acknowledged prefix, and the in-flight op if any
 	dry := newWorldStruct(c, &ev.Result{})
 	for i := 0; i < run.acked && i < len(c.Ops); i++ {
@@ -324,6 +347,9 @@ func judgeCrash(c Case, r *ev.Result, dir string, run childRun, n int64, recAt i
 	ctx := fmt.Sprintf("crash at mutation %d (acknowledged steps 0..%d, in flight: %s)", n, run.acked-1, inflight)
 	if recAt > 0 {
 		ctx += fmt.Sprintf(", recovery crashed at its mutation %d", recAt)
+	}
+	for _, s := range note {
+		ctx += ", " + s
 	}
 	w, err := OpenWorldAt(c, r, dir)
 	if err != nil {
@@ -420,7 +446,7 @@ func ExecC04(cc CrashCase) *ev.Result {
 		if run.acked > 0 && run.acked < len(c.Ops) || run.started >= 0 && run.acked < len(c.Ops) {
 			interior++
 		}
-		doRec := cc.OnlyRec > 0 || (cc.RecEvery > 0 && int(n)%cc.RecEvery == 0)
+		doRec := cc.OnlyRec > 0 || cc.Debris || (cc.RecEvery > 0 && int(n)%cc.RecEvery == 0)
 		var snap string
 		if doRec {
 			snap = d + ".snap"
@@ -432,7 +458,24 @@ func ExecC04(cc CrashCase) *ev.Result {
 			r.ReplayCase = CrashCase{Case: cc.Case, Only: n}
 			return r
 		}
-		if doRec {
+		if doRec && cc.OnlyRec == 0 {
+			// the next process dies while Badger creates its memtable file, then recover: same verdict
+			d3 := filepath.Join(base, fmt.Sprintf("n%d-mem", n))
+			if err := copyDir(snap, d3); err != nil {
+				panic(err)
+			}
+			name, err := addEmptyMemTable(filepath.Join(d3, "db"))
+			if err != nil {
+				panic(err)
+			}
+			r.Count("memtable_debris_runs", 1)
+			if !judgeCrash(c, r, d3, run, n, 0, "the next process was killed while Badger created its memtable file (left "+name+" empty)") {
+				r.ReplayCase = CrashCase{Case: cc.Case, Only: n, Debris: true}
+				return r
+			}
+			os.RemoveAll(d3)
+		}
+		if doRec && !cc.Debris {
 			// crash inside recovery, at every index, then recover cleanly: same verdict function
 			rfull, err := runChildOnCopy("recover", c, snap, 0, base)
 			if err != nil {
